@@ -297,3 +297,21 @@ def mode_behaviours(workdir, depth, maxw=44, unit=2, gen=True, workers=8, timeou
             j["id"] = "beh:mode:%s" % hashlib.sha256(j["text"].encode()).hexdigest()[:12]
             behs.append(j)
     return r, behs
+
+
+ITEM_CFG = ("SPECIFICATION Spec\nCONSTANTS MaxDepth = %d\n MaxElems = %d\n Unit = %d\n GenOn = %s\nINVARIANTS %s\nCHECK_DEADLOCK FALSE\n")
+ITEM_INVS = "InvNestingPlain InvIndentUnit InvWidthFree"
+
+
+def item_behaviours(workdir, depth, elems, unit=2, gen=True, workers=4, timeout=1500):
+    """ItemMC: nested list items (marker, body of scope Item, nest by one unit); `- - a` shapes included (G04)."""
+    cfg = ITEM_CFG % (depth, elems, unit, "TRUE" if gen else "FALSE", ITEM_INVS + (" Gen" if gen else ""))
+    r = C.model_check("ItemMC", cfg, workdir, workers=workers, xmx="4g", timeout=timeout)
+    behs = []
+    if gen:
+        for g in C.parse_tlc_tuple_lines(r["out"], "GEN"):
+            j = json.loads(C.unquote_tla_string(g))
+            j["text"] = j["src"]
+            j["id"] = "beh:item:%s" % hashlib.sha256(j["text"].encode()).hexdigest()[:12]
+            behs.append(j)
+    return r, behs
